@@ -577,6 +577,9 @@ def battery_keys() -> list[str]:
 
     data = db.SPSDK_DATA_FOLDER
     devs = sorted(d for d in os.listdir(os.path.join(data, "devices")) if os.path.isdir(os.path.join(data, "devices", d)))
+    rd = getattr(db, "SPSDK_RESTRICTED_DATA_FOLDER", None)
+    if rd and os.path.isdir(os.path.join(rd, "data", "devices")):
+        devs = sorted(set(devs) | {d for d in os.listdir(os.path.join(rd, "data", "devices")) if os.path.isdir(os.path.join(rd, "data", "devices", d))})
     feats = [f.label for f in db.FeaturesEnum]
     keys = ["qdevs", "qallf", "qpred", "qgroups"]
     for d in devs:
